@@ -58,6 +58,9 @@ struct W<'c> {
     c: Counts,
     distinct: Distinct,
     xy: Vec<u8>,
+    /// fixed context in front of every enumerated token string
+    pre: Vec<u8>,
+    full: Vec<u8>,
 }
 
 fn features(clause: &str, vx: &V, vxy: Option<&V>, x: &[u8]) -> Vec<(&'static str, String)> {
@@ -86,7 +89,27 @@ fn features(clause: &str, vx: &V, vxy: Option<&V>, x: &[u8]) -> Vec<(&'static st
 }
 
 impl W<'_> {
-    fn refresh(&mut self, x: &[u8], last: usize) {
+    fn refresh(&mut self, x0: &[u8], last: usize) {
+        let mut full = std::mem::take(&mut self.full);
+        full.clear();
+        full.extend_from_slice(&self.pre);
+        full.extend_from_slice(x0);
+        self.refresh_full(&full, last);
+        self.full = full;
+    }
+
+    /// verdict flags of every byte prefix of the fixed context
+    fn init_prefix_flags(&mut self) {
+        let pre = self.pre.clone();
+        for (si, (_, start)) in self.starts.clone().iter().enumerate() {
+            for l in 0..pre.len() {
+                let v = verdict(self.root, start, &pre[..l]);
+                self.flags[si][l] = flag_of(&v, &pre[..l]);
+            }
+        }
+    }
+
+    fn refresh_full(&mut self, x: &[u8], last: usize) {
         for (si, (_, start)) in self.starts.clone().iter().enumerate() {
             if last == 2 {
                 let p = &x[..x.len() - 1];
@@ -100,7 +123,16 @@ impl W<'_> {
         }
     }
 
-    fn check(&mut self, x: &[u8], ntok: usize, last: usize) {
+    fn check(&mut self, x0: &[u8], ntok: usize, last: usize) {
+        let mut full = std::mem::take(&mut self.full);
+        full.clear();
+        full.extend_from_slice(&self.pre);
+        full.extend_from_slice(x0);
+        self.check_full(&full, ntok, last);
+        self.full = full;
+    }
+
+    fn check_full(&mut self, x: &[u8], ntok: usize, last: usize) {
         let k = self.kfor[ntok];
         for si in 0..self.starts.len() {
             let (sname, start) = self.starts[si];
@@ -338,55 +370,70 @@ fn main() {
     let root = Main.root_node();
     let st = starts();
     let kfor2 = kfor.clone();
-    let ws = lex::sweep(
-        SIGMA,
-        lx,
-        args.threads,
-        args.seed,
-        || W {
-            root,
-            starts: st.clone(),
-            flags: vec![[0u8; 80]; st.len()],
-            conts: &conts,
-            kfor: kfor2.clone(),
-            groups: Groups::new(),
-            c: Counts::default(),
-            distinct: Distinct::default(),
-            xy: Vec::with_capacity(128),
-        },
-        |w, x, last| w.refresh(x, last),
-        30,
-        |p, k| {
-            let x = lex::case_of(SIGMA, lx, p, k);
-            println!("HANG partition={p} case={k} x=\"{}\"", show(&x));
-            std::process::exit(3);
-        },
-    );
+    // the empty context with the full length bound, then fixed argument / unit contexts with a
+    // shorter bound (they put the enumerated tokens at parameter positions 2.., after a ';' ...)
+    let contexts: Vec<(&[u8], usize)> = vec![
+        (b"", lx),
+        (b"B 1,", lx - 1),
+        (b"B 'x' ,", lx - 2),
+        (b"A:B;B ", lx - 1),
+        (b"B #11,,", lx - 2),
+    ];
     let mut out = Outcome::new("C12");
     let mut c = Counts::default();
     let mut distinct = Distinct::default();
-    for w in ws {
-        out.groups.merge(w.groups);
-        distinct.merge(w.distinct);
-        c.cases += w.c.cases;
-        c.parse_calls += w.c.parse_calls;
-        c.acc += w.c.acc;
-        c.acc_exact += w.c.acc_exact;
-        c.rej += w.c.rej;
-        c.rej_nl += w.c.rej_nl;
-        c.inc += w.c.inc;
-        c.p1b_pairs += w.c.p1b_pairs;
-        c.p1c_pairs += w.c.p1c_pairs;
-        c.p2_pairs += w.c.p2_pairs;
-        c.p3_checked += w.c.p3_checked;
+    let mut expected_cases = 0u64;
+    for (pre, plx) in &contexts {
+        let plx = *plx;
+        let ws = lex::sweep(
+            SIGMA,
+            plx,
+            args.threads,
+            args.seed,
+            || {
+                let mut w = W {
+                    root,
+                    starts: st.clone(),
+                    flags: vec![[0u8; 80]; st.len()],
+                    conts: &conts,
+                    kfor: kfor2.clone(),
+                    groups: Groups::new(),
+                    c: Counts::default(),
+                    distinct: Distinct::default(),
+                    xy: Vec::with_capacity(128),
+                    pre: pre.to_vec(),
+                    full: Vec::with_capacity(128),
+                };
+                w.init_prefix_flags();
+                w
+            },
+            |w, x, last| w.refresh(x, last),
+            30,
+            |p, k| {
+                let x = lex::case_of(SIGMA, plx, p, k);
+                println!("HANG context=\"{}\" partition={p} case={k} x=\"{}\"", show(pre), show(&x));
+                std::process::exit(3);
+            },
+        );
+        expected_cases += lex::count_upto(SIGMA.len(), plx) * st.len() as u64;
+        for w in ws {
+            out.groups.merge(w.groups);
+            distinct.merge(w.distinct);
+            c.cases += w.c.cases;
+            c.parse_calls += w.c.parse_calls;
+            c.acc += w.c.acc;
+            c.acc_exact += w.c.acc_exact;
+            c.rej += w.c.rej;
+            c.rej_nl += w.c.rej_nl;
+            c.inc += w.c.inc;
+            c.p1b_pairs += w.c.p1b_pairs;
+            c.p1c_pairs += w.c.p1c_pairs;
+            c.p2_pairs += w.c.p2_pairs;
+            c.p3_checked += w.c.p3_checked;
+        }
     }
-    let strings = lex::count_upto(SIGMA.len(), lx);
-    if c.cases != strings * st.len() as u64 {
-        out.machinery_errors.push(format!(
-            "enumeration incomplete: {} cases, expected {}",
-            c.cases,
-            strings * st.len() as u64
-        ));
+    if c.cases != expected_cases {
+        out.machinery_errors.push(format!("enumeration incomplete: {} cases, expected {}", c.cases, expected_cases));
     }
     out.cov("states", c.cases);
     out.cov("transitions", c.parse_calls);
@@ -404,6 +451,7 @@ fn main() {
     out.cov(
         "bounds",
         json!({"alphabet": lex::sigma_json(), "alphabet_size": SIGMA.len(), "max_tokens_x": lx,
+               "contexts": contexts.iter().map(|(p, l)| json!({"fixed_prefix": show(p), "max_tokens_after_it": l})).collect::<Vec<_>>(),
                "continuation_tokens_by_len_x": kfor, "start_nodes": st.iter().map(|s| s.0).collect::<Vec<_>>(),
                "tree": "mc::ifaces::Main (macro-generated)"}),
     );
